@@ -60,7 +60,7 @@ theorem parsePelFromPLID (g : Env → DirCfg → Dir → CliOut) (h : Gen.parseP
 
 /-- `parseAndPrintPELFile(file, config, exit_on_error)`: what it prints and reports is the model's `printOne`, it returns whether a
     document was printed; with `exit_on_error` a wrong first / second section id ends the process with status 1 -/
-theorem parseAndPrintPELFile (g : Env → DirCfg → FileEntry → Bool → OutM Unit (Ctl Bool)) (h : Gen.parseAndPrintPELFile? = some g) :
+theorem parseAndPrintPELFile (g : Env → DirCfg → FileEntry → Bool → OutM Unit (Ctl Bool)) (h : Gen.dirParseAndPrintPELFile? = some g) :
     ∀ env c f x (st : PySt Unit), g env c f x st =
       if (x && fullOfBad env c.selCfg f) = true then (.exit 1, st)
       else (.ok (.ret (match fullOf env c.selCfg f with | .some _ => true | _ => false)), printStep env c f st) := by
